@@ -323,7 +323,7 @@ func propC04(c *Ctx) {
 	checkBlockMapMutation(c, "R4.4")
 	c.Rule("R4.6", "every row is stamped: the ig_name/src_name selectors are always added, independently of user-declared columns", 6)
 	checkRequiredFieldsIndependent(c, "R4.6")
-	c.Rule("R4.7", "a task emits only what its own filters accept: every cell value is offered to its column's filter (logs left in a shared cached block by another task cannot slip through)", 6)
+	c.Rule("R4.7", "a task emits only what its own filters accept: every cell value is offered to its column's filter (logs left in a shared cached block by another task cannot slip through)", 4)
 	checkEveryCellFiltered(c, "R4.7")
 	checkFiltersNeverOverwritten(c, "R4.7")
 	c.Rule("R4.5", "attaching logs to a block shared with another task drops a log only as a duplicate", 2)
